@@ -419,11 +419,6 @@ theorem densify_ring_closed (len : Len) (mx : Rat) (cs : List Pt) (h : SM.isClos
 
 /-! ### piece lengths and total length (needs `len` homogeneous along a segment) -/
 
-/-- homogeneity of the length along a segment: the sub-segment between parameters `s ≤ t` has
-length `(t − s) · len a b` (true of the Euclidean length; "collinear pieces add up"). -/
-def LenLerp (len : Len) : Prop :=
-  ∀ (a b : Pt) (s t : Rat), s ≤ t → len (lerp a b s) (lerp a b t) = (t - s) * len a b
-
 private theorem densifyLine_eq_map (len : Len) (a b : Pt) (mx : Rat) (hn : 0 < numSegments len a b mx) :
     densifyLine len a b mx = (List.range' 0 (numSegments len a b mx + 1)).map
       (fun (k : Nat) => lerp a b ((k : Rat) / (numSegments len a b mx : Rat))) := by
@@ -606,5 +601,112 @@ theorem deprecated_pinned_witness :
     lsLineInterpolatePointPinned (fun a b => rabs (a.x - b.x) + rabs (a.y - b.y))
       [⟨0, 0⟩, ⟨0, 0⟩, ⟨1, 0⟩] 0 = none := by
   simp [lsLineInterpolatePointPinned, lipGoPinned, segs, lsLength, sumLen, rabs]
+
+/-! ### locate inverts interpolate (LineString) -/
+
+/-- [Tp] LineString round trip. FULL STATEMENT (not proved in this generality): for every
+*simple* line string of positive length and every `r`,
+`line_locate_point(point_at_ratio_from_start(line, r)) = clamp01 r`. Proved here for
+`0 < r ≤ 1` with simplicity in the explicit form `EarlierApart`; `r ≤ 0` is `locate_start` below
+(no hypothesis needed); `r > 1` reduces to `r = 1` by `ls_ratio_clamp`. -/
+theorem locate_interpolate_ls_partial {len : Len} (hl : LenAx len) (cs : List Pt) (r : Rat)
+    (h0 : 0 < r) (h1 : r ≤ 1) (hL : 0 < lsLength len cs) (p : Pt)
+    (hp : lsPointAtRatioFromStart len cs r = some p)
+    (hs : EarlierApart len cs (r * lsLength len cs) p) :
+    lsLineLocatePoint len cs p = r := by
+  have hd0 : 0 < r * lsLength len cs := mul_pos h0 hL
+  have hd1 : r * lsLength len cs ≤ lsLength len cs := by nlinarith
+  unfold lsPointAtRatioFromStart lsPointAtDistanceFromStart at hp
+  rw [if_neg (not_le.2 hd0)] at hp
+  match hw : walk len (segs cs) (r * lsLength len cs), hp with
+  | none, _ =>
+    have := walk_none (segs cs) _ hd0 hw
+    exact absurd this (not_lt.2 hd1)
+  | some (a, b, r'), hp =>
+    simp only [Option.some.injEq] at hp
+    obtain ⟨pre, post, e, hr', hpos, hle⟩ := walk_some (segs cs) _ hd0 hw
+    have hlpos : 0 < len a b := lt_of_lt_of_le hpos hle
+    have hab : a ≠ b := by
+      intro h; rw [h, hl.self_zero] at hlpos; exact lt_irrefl _ hlpos
+    have ht0 : 0 ≤ r' / len a b := le_of_lt (div_pos hpos hlpos)
+    have ht1 : r' / len a b ≤ 1 := by rw [div_le_iff₀ hlpos]; linarith
+    have hpl : p = lerp a b (r' / len a b) := by rw [← hp, lerp_div]
+    have hz : segDistSq p a b = 0 := by rw [hpl]; exact segDistSq_lerp a b hab _ ht0 ht1
+    have hloc : lineLocatePoint a b p = r' / len a b := by
+      rw [hpl, locate_lerp a b hab, clamp01_eq]
+      by_cases hz' : r' / len a b ≤ 0
+      · have : r' / len a b = 0 := le_antisymm hz' ht0
+        simp [this]
+      · by_cases ho : 1 ≤ r' / len a b
+        · have : r' / len a b = 1 := le_antisymm ht1 ho
+          simp [this]
+        · simp [hz', ho]
+    have hpre := hs pre a b post e (by linarith) (by linarith)
+    unfold lsLineLocatePoint
+    simp only
+    rw [if_neg (ne_of_gt hL), e,
+      locateGo_first_hit len p a b post hz pre 0 none 0 (by intro c hc; cases hc) hpre, hloc]
+    have : 0 + sumLen len pre + r' / len a b * len a b = r * lsLength len cs := by
+      rw [div_mul_cancel₀ _ (ne_of_gt hlpos), hr']; ring
+    rw [this, mul_div_assoc, div_self (ne_of_gt hL), mul_one]
+
+/-- [T] the first coordinate (every ratio `≤ 0`) is located at fraction 0, whatever the line
+does later (repeated vertices, self-intersections, zero total length). -/
+theorem locate_start (len : Len) (a : Pt) (rest : List Pt) :
+    lsLineLocatePoint len (a :: rest) a = 0 := by
+  unfold lsLineLocatePoint
+  simp only
+  split
+  · rfl
+  · cases rest with
+    | nil => simp [segs, locateGo]
+    | cons b rest =>
+      have hz : segDistSq a a b = 0 := by
+        by_cases hab : a = b
+        · subst hab; simp [segDistSq]
+        · have := segDistSq_lerp a b hab 0 (le_refl _) (by norm_num)
+          rwa [lerp_zero] at this
+      have hfr : lineLocatePoint a b a = 0 := by
+        unfold lineLocatePoint
+        simp only [sub_self, mul_zero, add_zero, zero_div]
+        split
+        · rfl
+        · rw [clamp01_eq]; simp
+      simp only [segs, locateGo, hz, hfr, if_true, locateGo_done]
+      simp
+
+/-! ### non-vacuity: the hypotheses are satisfiable, on a path with a repeated vertex
+
+`l1` (taxicab length, `GeoProofs/Lemmas/C15.lean`) satisfies `LenAx` and `LenLerp`. -/
+
+example : LenAx l1 := l1_ax
+example : LenLerp l1 := l1_lerp
+
+private def exPath : List Pt := [⟨0, 0⟩, ⟨0, 0⟩, ⟨2, 0⟩, ⟨2, 3⟩]
+
+example : lsPointAtRatioFromStart l1 exPath (2 / 5) = lsPointAtRatioFromEnd l1 exPath (1 - 2 / 5) :=
+  ratio_start_end l1_ax _ _
+example : lsPointAtDistanceFromStart l1 exPath 7 = some ⟨2, 3⟩ :=
+  ls_distance_clamp_hi l1_ax exPath 7 (by norm_num [exPath, lsLength, segs, sumLen, l1])
+example : lsLineInterpolatePoint l1 exPath 0 = lsPointAtRatioFromStart l1 exPath 0 :=
+  deprecated_eq_ratio l1_ax _ _
+example : ∀ s ∈ segs (densifyLS l1 exPath (3 / 2)), l1 s.1 s.2 ≤ 3 / 2 :=
+  densify_ls_pieces l1_ax l1_lerp _ (by norm_num) _
+example : lsLength l1 (densifyLS l1 exPath (3 / 2)) = lsLength l1 exPath :=
+  densify_ls_length l1_ax l1_lerp _ (by norm_num) _
+example : 0 < numSegments l1 ⟨2, 0⟩ ⟨2, 3⟩ (3 / 2) ∧ l1 ⟨2, 0⟩ ⟨2, 3⟩ / (numSegments l1 ⟨2, 0⟩ ⟨2, 3⟩ (3 / 2) : Rat) ≤ 3 / 2 ∧
+    ((numSegments l1 ⟨2, 0⟩ ⟨2, 3⟩ (3 / 2) : Rat) - 1) * (3 / 2) < l1 ⟨2, 0⟩ ⟨2, 3⟩ :=
+  densify_piece_bound l1_ax _ _ _ (by norm_num) (by norm_num [l1])
+
+/-- the simplicity hypothesis of the partial theorem holds on a concrete simple path, at its end -/
+example : EarlierApart l1 [⟨0, 0⟩, ⟨2, 0⟩, ⟨2, 3⟩] 5 ⟨2, 3⟩ := by
+  intro pre a b post e h1 h2 s hs
+  match pre, e, hs with
+  | [x], e, hs =>
+    simp only [segs, List.cons_append, List.nil_append, List.cons.injEq] at e
+    simp only [List.mem_singleton] at hs
+    rw [hs, ← e.1]
+    norm_num [segDistSq]
+  | x :: y :: z, e, _ => simp [segs] at e
 
 end Geo.Proofs.C15
